@@ -8,6 +8,7 @@ import RitiModel.Gen.LogicConsts
 import RitiModel.Gen.PanicSites
 import RitiModel.Gen.CharClasses
 import RitiModel.Model.Context
+import RitiModel.Spec.CharSpec
 namespace Riti.Tie
 open Riti Riti.Gen
 
@@ -41,5 +42,11 @@ theorem sign_vowel_tables :
 
 /-- the two key values with rules of their own (`zoFola`, `rephValue`) -/
 theorem special_values : zoFolaLiteral = zoFola.map Char.toNat ∧ rephLiteral = rephValue.map Char.toNat := by decide
+
+/-- the three linguistic classes (`is_vowel`, `is_kar`, `is_pure_consonant` of src/utility.rs, regenerated) are exactly the
+    hand-written classes of Spec/CharSpec.lean -/
+theorem char_classes_are_spec :
+    vowelSet = Spec.vowels.map Char.toNat ∧ karSet = Spec.signs.map Char.toNat ∧
+    pureConsonantSet = Spec.pureConsonants.map Char.toNat := by decide
 
 end Riti.Tie
